@@ -200,6 +200,9 @@ func windowBFS(c *Ctx, dir string, n int) {
 					r.Close()
 					continue
 				}
+				if len(nd.path) >= 1 && i%97 == 0 {
+					c.Sample(map[string]any{"file_size": n, "path_to_state": fmt.Sprint(nd.path), "operation": op.String(), "returned_bytes": len(res)})
+				}
 				np := append(append([]winOp{}, nd.path...), op)
 				key, ok, good := checkState(r, np)
 				r.Close()
